@@ -4,6 +4,7 @@ import (
 	"github.com/New-JAMneration/JAM-Protocol/internal/types"
 	"github.com/New-JAMneration/JAM-Protocol/internal/utilities/hash"
 	merkle "github.com/New-JAMneration/JAM-Protocol/internal/utilities/merkle_tree"
+	"github.com/New-JAMneration/JAM-Protocol/internal/utilities/mmr"
 	"github.com/New-JAMneration/JAM-Protocol/internal/zzvt"
 )
 
@@ -125,4 +126,43 @@ func ZZ_C25_commitment() {
 	}
 	root := lastAccOutRoot(ser)
 	zzvt.Assert(root == merkle.Mb(blobs, hash.KeccakHash), "root-is-well-balanced-keccak-merkle")
+}
+
+// ZZ_C25_belt: the accumulation-output root (any hash, the zero hash of an empty output list
+// included) is appended to the belt on every block and the entry commits to the belt after the
+// append: AppendAndCommitMmr(b, r) = (A(b, r), MR(A(b, r))) with A and MR the mountain-range
+// functions decided against the Gray Paper by C19. Belts of 0..2 peak slots, each present or
+// absent.
+//zz:workers=4
+func ZZ_C25_belt() {
+	n := zzvt.Range("peakSlots", 0, 2)
+	peaks := make([]types.MmrPeak, n)
+	ref := make([]types.MmrPeak, n)
+	for i := range peaks {
+		if zzvt.Bool("peakPresent") {
+			h := zzHash("peak")
+			h2 := h
+			peaks[i], ref[i] = &h, &h2
+		}
+	}
+	root := zzHash("root") // both arbitrary bytes may be zero: H^0, the root of no outputs
+	belt, commit := AppendAndCommitMmr(types.Mmr{Peaks: peaks}, root)
+	var m *mmr.MMR
+	if n == 0 {
+		m = mmr.NewMMR(hash.KeccakHash)
+	} else {
+		m = mmr.NewMMRFromPeaks(ref, hash.KeccakHash)
+	}
+	r2 := root
+	want := m.AppendOne(types.MmrPeak(&r2))
+	zzvt.Assert(len(belt.Peaks) == len(want), "belt-after-append-length")
+	for i := range want {
+		if i < len(belt.Peaks) {
+			zzvt.Assert((belt.Peaks[i] == nil) == (want[i] == nil), "belt-after-append-peak-presence")
+			if belt.Peaks[i] != nil && want[i] != nil {
+				zzvt.Assert(*belt.Peaks[i] == *want[i], "belt-after-append-peak")
+			}
+		}
+	}
+	zzvt.Assert(commit == m.SuperPeak(want), "entry-commits-to-the-belt-after-the-append")
 }
